@@ -191,7 +191,7 @@ CHECKS["C05"] = {
     "rule": "case = (B, validity pattern, limit, response style/boundary, corruption?) x cut set. Non-trivial = response with >= 2 parts (or >= 2 chunks in a single range) and, for multipart, at least one cut falling strictly inside a part header (boundary line, headers or the blank line); distinct = (case, cut set) by construction.",
     "assumptions": ["server sends parts in request order", "transport stops delivering after a callback signals an error"],
     "runs": [
-        {"bin": "asan/C05", "cases": P(24, 500), "procs": P(8, 16), "size": 70, "shrink_budget": 20, "cpu_limit": 300},
+        {"bin": "asan/C05", "cases": P(24, 110), "procs": P(8, 16), "size": 70, "shrink_budget": 20, "cpu_limit": 300},
     ],
 }
 
